@@ -205,7 +205,7 @@ class C29(Property):
     def _operator_level(self, ctx: Ctx) -> None:
         rng = ctx.rng
         lines, real, meta = [], [], []
-        n = 300 if ctx.tier == "quick" else 3000
+        n = 200 if ctx.tier == "quick" else 3000
         boundary = [("first", []), ("only", []), ("all", []), ("first", [None]), ("only", [None, None]), ("only", [5]), ("all", [None])]
         for i in range(n):
             if i < len(boundary):
@@ -278,6 +278,7 @@ class C29(Property):
                 ctx.disagree("operator spec vs cwltool run", f"{d['name']}: cwltool {got_ct}, Lean spec {spec}", case)
 
     def explore(self, ctx: Ctx) -> None:
+        C.enable_bytecode_cache()
         self._operator_level(ctx)
         C.warm_up()
         rng = ctx.rng
@@ -292,7 +293,7 @@ class C29(Property):
             json.dump(d["job"], open(os.path.join(dd, "job.json"), "w"))
             by_id[f"c{i}"] = (d, ln)
             cases.append({"id": f"c{i}", "dir": dd, "doc": "wf.cwl", "job": "job.json", "name": "wf", "timeout": 900})
-        nrand = {"quick": 12, "thorough": 160}[ctx.tier] * (2 if ctx.mode == "search" else 1)
+        nrand = {"quick": 6, "thorough": 160}[ctx.tier] * (2 if ctx.mode == "search" else 1)
         for i in range(nrand):
             dd = os.path.join(ctx.scratch, f"rand{ctx.mode}{i}")
             desc = G.gen_workflow(rng, dd, G.SAFE_FEATURES)
